@@ -6,8 +6,8 @@ import kernels, tvlib
 import solverlib as sl
 import compos
 
-GEN_SOURCES = ["skglm/solvers/anderson_cd.py", "skglm/datafits/single_task.py", "skglm/utils/sparse_ops.py"]
-EXTRA_TARGETS = ["Gen/KernCD.vo", "Gen/KernACD.vo", "Gen/DfSingle.vo", "Gen/PenSeparable.vo", "Gen/SparseOps.vo"]
+GEN_SOURCES = ["skglm/solvers/anderson_cd.py", "skglm/datafits/single_task.py", "skglm/utils/sparse_ops.py", "skglm/solvers/group_bcd.py", "skglm/datafits/group.py"]
+EXTRA_TARGETS = ["Gen/KernCD.vo", "Gen/KernACD.vo", "Gen/DfSingle.vo", "Gen/PenSeparable.vo", "Gen/SparseOps.vo", "Gen/KernBCD.vo", "Gen/DfGroup.vo", "Gen/PenBlock.vo"]
 TRUSTED_BASE = [
     "Coq 8.16.1 kernel (coqc); vm_compute only in correspondence files",
     "axioms: Reals (sig_forall_dec, sig_not_dec), functional_extensionality_dep, Classical_Prop.classic",
@@ -27,8 +27,9 @@ def correspondence(tier, rng):
     kc = kernels.gen_cd_kernels(rng, 120 if tier == "quick" else 800)
     kc += [c for c in kernels.gen_datafits(rng, 80 if tier == "quick" else 500) if "sparse" in c[0] or "gradient" in c[0] or "lipschitz" in c[0]]
     r = tvlib.run_cases(kc, ["Gen.ProxFuncs", "Gen.PenSeparable", "Gen.SparseOps", "Gen.DfSingle", "Gen.KernCD", "Gen.KernACD"], "C10", shard=25, jobs=16)
-    return dict(cases=len(kc), bad=r["bad"][:10], errors=r["errors"], distribution=dict(kernel_cases=len(kc), sparse=sum("sparse" in c[0] for c in kc)),
+    base = dict(cases=len(kc), bad=r["bad"][:10], errors=r["errors"], distribution=dict(kernel_cases=len(kc), sparse=sum("sparse" in c[0] for c in kc)),
                 distinct_nontrivial=len({c[0] for c in kc}), samples=[dict(case=kc[0][0][:300])])
+    return kernels.add_bcd_kernel_corr(base, rng, 140 if tier == "quick" else 840, "C10k")
 
 
 def oracle(tier, rng, deep=False):
